@@ -99,9 +99,21 @@ def oracle(req, impl):
     groups = _spec.get(name)
     if groups is None:
         groups = [[w.lower() for w in name.split("_") if len(w) >= 4]]
+    why = describes(groups, msg)
+    if why:
+        return "cif_errlist[%s] = %r does not describe %s (%s)" % (t[1], msg, name, why)
+    return None
+
+
+def describes(groups, msg):
+    """None when the lower-cased message satisfies every keyword group; a group beginning with '!' is negative"""
     for alts in groups:
-        if not any(w in msg for w in alts):
-            return "cif_errlist[%s] = %r does not describe %s (none of %s)" % (t[1], msg, name, alts)
+        if alts and alts[0] == "!":
+            hit = [w for w in alts[1:] if w in msg]
+            if hit:
+                return "contains %s" % hit
+        elif not any(w in msg for w in alts):
+            return "none of %s" % alts
     return None
 
 
